@@ -27,7 +27,7 @@ Proof.
   - (* poll / time-out *)
     rewrite Hp0 in H. destruct (budget r0).
     + inversion H; subst; clear H. exfalso. unfold timeout_step in Hp'.
-      destruct (blk_phase _ _ _ Hc Hp0) as [Hph|[Hph|Hph]]; rewrite Hph in Hp'; cbn in Hp'; rewrite updp_same in Hp';
+      destruct (blk_phase _ _ _ Hc Hp0) as [[iu Hph]|[Hph|Hph]]; rewrite Hph in Hp'; cbn in Hp'; rewrite updp_same in Hp';
         inversion Hp'; subst; cbn in Hph'; try discriminate Hph'.
       eapply after_save_not_save; eauto.
     + inversion H; subst; clear H. cbn in Hp'. rewrite updp_same in Hp'. inversion Hp'; subst. cbn in *. eauto.
